@@ -1436,6 +1436,12 @@ Pointset_Powerset<PSET>::BHZ03_widening_assign(const Pointset_Powerset& y,
   }
 #endif
 
+  // The certificates are computed disjunct by disjunct: both arguments
+  // have to be omega-reduced (redundant disjuncts would alter the multiset
+  // certificates and the singleton test below).
+  x.omega_reduce();
+  y.omega_reduce();
+
   // First widening technique: do nothing.
 
   // If `y' is the empty collection, do nothing.
